@@ -69,6 +69,114 @@ From V Require gen.GenApi Model.ApiSurface.
 Theorem C11_api_io : GenApi.api_io = ApiSurface.expected_io.
 Proof. reflexivity. Qed.
 
+
+(* ---- the SOURCE TEXT of src/io.rs and of the reader / Write / mmap / rayon wrappers of src/lib.rs, translated
+   statement by statement (gen/GenIo.v, regenerated on every run), is the model above.  The std / memmap2 calls are
+   parameters of the translation, instantiated with: any reader that follows a script (scripted_reader: at most the
+   requested bytes, at the front of the buffer); an operating-system oracle `os` for a file; Hasher::update = the
+   model's hasher_update through the representation map.  Proofs in Proofs/GenIoP.v. ---- *)
+From V Require Import Base.SInt gen.GenLibLoops gen.GenXof gen.GenIo Model.RsWideSched Model.RsHasherSched
+  Proofs.GenLibLoopsP Proofs.GenTraitsP Proofs.GenIoP.
+
+Theorem C11_src_min_mmap_size : io_MINIMUM_MMAP_SIZE = rs_MIN_MMAP.
+Proof. exact io_MINIMUM_MMAP_SIZE_eq. Qed.
+
+(* A. io::copy_wide, at every fuel, Panic / OutOfFuel included *)
+Theorem C11_src_copy_wide : forall (Reader : Type) (view : Reader -> list N * list read_item)
+    (read : Reader -> list N -> Reader * list N * io_result N) (ek : N -> list N),
+  (forall k, ek k <> [73; 110; 116; 101; 114; 114; 117; 112; 116; 101; 100]) ->
+  scripted_reader Reader view read ek ->
+  forall p fuel r h,
+  io_copy_wide Reader read m_Hasher_update fuel r (lib_of_hasher p h)
+  = res_map (fun x => (lib_of_hasher p (fst x), io_of_copy ek (snd x)))
+      (copy_wide fuel p h (fst (view r)) (snd (view r)) 0).
+Proof. exact io_copy_wide_eq. Qed.
+
+(* the script of Model/RsIo.v is such a reader *)
+Theorem C11_src_script_is_reader : forall ek, scripted_reader (list N * list read_item) (fun st => st) (m_read ek) ek.
+Proof. exact m_read_scripted. Qed.
+
+(* B. io::maybe_mmap_file over the oracle: result and file cursor; the decision is mmap_decision; Ok(None) leaves the
+   cursor of a fresh file at the start (seek failed / returned 0 / rewound) *)
+Theorem C11_src_maybe_mmap_file : forall dbg o f, (dbg = true -> os_pos_ok o = true -> f_pos f = 0) ->
+  m_maybe_mmap_file dbg o f = Ok (mmf_result o f).
+Proof. exact io_maybe_mmap_file_eq. Qed.
+
+Theorem C11_src_mmap_decision : forall o f,
+  snd (mmf_result o f) =
+  match mmap_decision (os_seek_end o) (os_mmap_ok o) with
+  | Some len => IoOk (Some (firstn (N.to_nat len) (os_bytes o)))
+  | None => match os_seek_end o, os_rewind_err o with
+            | Some off, Some k => if (off =? 0) || negb (off <=? isize_max - rs_seek_offset) || negb (os_mmap_ok o)
+                                  then (if off =? 0 then IoOk None else IoErr k) else IoOk None
+            | _, _ => IoOk None
+            end
+  end.
+Proof. exact mmf_result_decision. Qed.
+
+Theorem C11_src_mmap_rewound : forall o f,
+  f_pos f = 0 -> snd (mmf_result o f) = IoOk None -> f_pos (fst (mmf_result o f)) = 0.
+Proof. exact mmf_result_rewound. Qed.
+
+Theorem C11_src_mmap_regular : forall o f, nlen (os_bytes o) < 2 ^ 62 -> os_mmap_ok o = true ->
+  os_seek_end o = (if rs_seek_offset <=? nlen (os_bytes o) then Some (nlen (os_bytes o) - rs_seek_offset) else None) ->
+  snd (mmf_result o f) = if rs_MIN_MMAP <=? nlen (os_bytes o) then IoOk (Some (os_bytes o)) else IoOk None.
+Proof. exact mmf_result_regular. Qed.
+
+(* C. the wrappers of src/lib.rs *)
+Theorem C11_src_update_reader : forall (Reader : Type) (view : Reader -> list N * list read_item)
+    (read : Reader -> list N -> Reader * list N * io_result N) (ek : N -> list N),
+  (forall k, ek k <> [73; 110; 116; 101; 114; 114; 117; 112; 116; 101; 100]) ->
+  scripted_reader Reader view read ek ->
+  forall p r h,
+  io_Hasher_update_reader Reader read m_Hasher_update (copy_fuel (fst (view r)) (snd (view r))) (lib_of_hasher p h) r
+  = res_map (fun x => (lib_of_hasher p (fst x), io_unit_of_copy ek (snd x)))
+      (update_reader p h (fst (view r)) (snd (view r))).
+Proof. exact io_Hasher_update_reader_eq. Qed.
+
+Theorem C11_src_write : forall p h input,
+  io_Hasher_Write_write m_Hasher_update (lib_of_hasher p h) input
+  = res_map (fun x => (lib_of_hasher p (fst x), IoOk (snd x))) (hasher_write p h input).
+Proof. exact io_Hasher_Write_write_eq. Qed.
+
+Theorem C11_src_flush : forall h, io_Hasher_Write_flush h = Ok (h, IoOk tt).
+Proof. exact io_Hasher_Write_flush_eq. Qed.
+
+Theorem C11_src_update_rayon_call : forall ext h input,
+  io_Hasher_update_rayon ext h input = ext io_Join_RayonJoin h input.
+Proof. exact io_Hasher_update_rayon_call. Qed.
+
+Theorem C11_src_update_rayon : forall sch p h input,
+  io_Hasher_update_rayon (m_Hasher_update_with_join sch) (lib_of_hasher p h) input
+  = res_map (lib_of_hasher p) (hasher_update_sched p sch h input).
+Proof. exact io_Hasher_update_rayon_eq. Qed.
+
+(* mapped => update with the mapped bytes; not mapped => copy_wide from the (rewound) cursor; see mmap_outcome *)
+Theorem C11_src_update_mmap : forall (Path : Type) (ek : N -> list N),
+  (forall k, ek k <> [73; 110; 116; 101; 114; 114; 117; 112; 116; 101; 100]) ->
+  forall dbg o (open : Path -> io_result file) p fuel h path,
+  (forall f, open path = IoOk f -> dbg = true -> os_pos_ok o = true -> f_pos f = 0) ->
+  io_Hasher_update_mmap Path file (option N) (list N) open dbg (m_seek o) (m_rewind o) None (fun _ n => Some n) (m_map o)
+    (m_stream_position o) (fun m => m) m_Hasher_update (m_file_read ek o) fuel (lib_of_hasher p h) path
+  = match open path with
+    | IoOk f0 => mmap_outcome ek (hasher_update p) p fuel o h f0
+    | IoErr k => Ok (lib_of_hasher p h, IoErr k)
+    end.
+Proof. exact io_Hasher_update_mmap_eq. Qed.
+
+Theorem C11_src_update_mmap_rayon : forall (Path : Type) (ek : N -> list N),
+  (forall k, ek k <> [73; 110; 116; 101; 114; 114; 117; 112; 116; 101; 100]) ->
+  forall sch dbg o (open : Path -> io_result file) p fuel h path,
+  (forall f, open path = IoOk f -> dbg = true -> os_pos_ok o = true -> f_pos f = 0) ->
+  io_Hasher_update_mmap_rayon Path file (option N) (list N) open dbg (m_seek o) (m_rewind o) None (fun _ n => Some n) (m_map o)
+    (m_stream_position o) (fun m => m) (m_Hasher_update_with_join sch) (m_file_read ek o) m_Hasher_update fuel
+    (lib_of_hasher p h) path
+  = match open path with
+    | IoOk f0 => mmap_outcome ek (fun h m => hasher_update_sched p sch h m) p fuel o h f0
+    | IoErr k => Ok (lib_of_hasher p h, IoErr k)
+    end.
+Proof. exact io_Hasher_update_mmap_rayon_eq. Qed.
+
 Print Assumptions C11_api_io.
 Print Assumptions C11_copy_wide_spec.
 Print Assumptions C11_delivered_prefix.
@@ -77,3 +185,17 @@ Print Assumptions C11_copy_fuel_enough.
 Print Assumptions C11_write_consumes_all.
 Print Assumptions C11_mmap_decision_regular.
 Print Assumptions C11_update_reader_refines.
+Print Assumptions C11_src_min_mmap_size.
+Print Assumptions C11_src_copy_wide.
+Print Assumptions C11_src_script_is_reader.
+Print Assumptions C11_src_maybe_mmap_file.
+Print Assumptions C11_src_mmap_decision.
+Print Assumptions C11_src_mmap_rewound.
+Print Assumptions C11_src_mmap_regular.
+Print Assumptions C11_src_update_reader.
+Print Assumptions C11_src_write.
+Print Assumptions C11_src_flush.
+Print Assumptions C11_src_update_rayon_call.
+Print Assumptions C11_src_update_rayon.
+Print Assumptions C11_src_update_mmap.
+Print Assumptions C11_src_update_mmap_rayon.
